@@ -22,7 +22,7 @@ type Case struct {
 	Prog *Node  `json:"prog"`
 	A    *int64 `json:"a"`
 	C    *int64 `json:"c"`
-	BIn  *int64 `json:"b_in"` // value of @b before the CALL (nil = NULL)
+	BIn  *int64 `json:"b_in"`          // value of @b before the CALL (nil = NULL)
 	SQL  string `json:"sql,omitempty"` // informational: the CREATE PROCEDURE text and the CALL
 }
 
